@@ -285,6 +285,92 @@ def spaces(tier, variant, seed):
         sp.append(Space("pin_bands", bb, band_cases, mul_one,
                         "mpn_mul: every shape with un+vn within +-2 of 2*TOOM3/TOOM4/TOOM8H/FFT_FULL and 6*TOOM4 (values from the tree's gmp-mparam.h), "
                         "un in {499..502,999..1002,..} x vn<=KARA+1 (chunked schoolbook), 3*vn around FFT_FULL"))
+        # ---- the largest FFT regime (matrix-Fourier algorithm, depth >= 11: un+vn above ~65 k limbs) with closed-form oracles ----
+        def huge_cases(blk):
+            un, vn, part = blk
+            for i, c in enumerate(huge_all(un, vn)):
+                if i % 6 == part:
+                    yield c
+
+        def huge_all(un, vn):
+            yield (un, vn, "ones", 0)
+            if un == vn:
+                yield (un, vn, "sqr_ones", 0)
+                yield (un, vn, "sqr_bit", 64 * (un // 3) + 17)
+            for k in (0, 1, 63, 64, 1529, 1530, 1531, 3060, 64 * (un // 2), 64 * (un // 2) + 765, 64 * un - 1, 64 * un - 1531, 99991, 12345 * 64 + 5, 7 * 1530, 1000003):
+                if k < 64 * un:
+                    yield (un, vn, "bit_u", k)
+                if k < 64 * vn:
+                    yield (un, vn, "bit_v", k)
+            yield (un, vn, "ones_u", 0)
+            yield (un, vn, "ones_v", 0)
+            yield (un, vn, "sparse_u", 3)
+            yield (un, vn, "sparse_v", 5)
+
+        def huge_one(case, R):
+            un, vn, fam, k = case
+            set_cfg("pin")
+            du, dv = al.PAT(un, 11)["dense"], al.PAT(vn, 12)["dense"]
+            if fam == "ones":
+                a, b = al.ones(un), al.ones(vn)
+                e = (1 << (64 * (un + vn))) - (1 << (64 * un)) - (1 << (64 * vn)) + 1
+            elif fam == "sqr_ones":
+                a = b = al.ones(un)
+                e = (1 << (128 * un)) - (1 << (64 * un + 1)) + 1
+            elif fam == "sqr_bit":
+                a = b = (1 << k) | 1
+                e = (1 << (2 * k)) + (1 << (k + 1)) + 1
+            elif fam == "bit_u":
+                a, b = 1 << k, dv
+                e = dv << k
+            elif fam == "bit_v":
+                a, b = du, 1 << k
+                e = du << k
+            elif fam == "ones_u":
+                a, b = al.ones(un), dv
+                e = (dv << (64 * un)) - dv
+            elif fam == "ones_v":
+                a, b = du, al.ones(vn)
+                e = (du << (64 * vn)) - du
+            else:
+                bits = [0, 1530 * k, 64 * (un if fam == "sparse_u" else vn) - 1 - 1530 * 2, 64 * 100 + 7]
+                sp_ = 0
+                for t in bits:
+                    sp_ |= 1 << t
+                if fam == "sparse_u":
+                    a, b = sp_, dv
+                    e = sum(dv << t for t in set(bits))
+                else:
+                    a, b = du, sp_
+                    e = sum(du << t for t in set(bits))
+            ou = G
+            ov = ou + un + G
+            orr = ov + vn + G
+            end = orr + un + vn + G
+            A = arena(end)
+            A.reset(end)
+            A.put(ou, a, un)
+            same = fam.startswith("sqr")
+            if not same:
+                A.put(ov, b, vn)
+            ret = fmul(A.addr(orr), A.addr(ou), un, A.addr(ou if same else ov), vn)
+            g = A.get(orr, un + vn)
+            if g != e:
+                x = g ^ e
+                R.fail("mpn_mul", "un=%d vn=%d %s k=%d: product wrong; differs in bits %d..%d" % (un, vn, fam, k, (x & -x).bit_length() - 1, x.bit_length() - 1))
+            elif ret != e >> (64 * (un + vn - 1)):
+                R.fail("mpn_mul", "un=%d vn=%d %s: returned high limb wrong" % (un, vn, fam))
+            if A.get(ou, un) != a or not A.untouched(end, [(ou, un), (ov, vn), (orr, un + vn)]):
+                R.fail("mpn_mul", "un=%d vn=%d %s: source modified or wrote outside" % (un, vn, fam))
+            return (un, vn, fam, k)
+
+        if variant != "asan":
+            hs = [(33000, 33000), (33600, 33000), (40000, 26000)]
+            if not quick:
+                hs += [(66000, 22100), (50000, 50000), (65536, 65536), (70000, 70000), (131072, 131072), (200000, 100000), (262144, 262000), (100000, 33400), (524288, 524288)]
+            sp.append(Space("pin_fft_mfa_regime", [(u, v, part) for (u, v) in hs for part in range(6)], huge_cases, huge_one,
+                            "mpn_mul in the matrix-Fourier FFT regime (un+vn above 65 k limbs): all-ones x all-ones, squares, single-bit and sparse operands at coefficient-width multiples (1530 bits) and limb edges x dense, all-ones x dense: closed-form oracles"))
+
         # balanced bands for sqr thresholds above NB
         sb = []
         for nm in ("sqr_fft_full_threshold", "mul_fft_full_threshold", "sqr_toom8_threshold", "mul_toom8h_threshold"):
